@@ -277,6 +277,8 @@ func checkC03(c *Ctx) {
 	c.Rule("R7", "pipeline order: no go statement hands a request to code that can enqueue it on a request queue")
 	checkNoRequestGoroutine(c, "R7")
 
+	c.Rule("R9", "replies are relayed byte for byte: a multi-key reply is assembled from the children's replies without a copy that turns an empty string into the null bulk or back (shared with C10.R9)")
+	checkTextNilness(c, "R9")
 	c.Rule("R8", "every reply shape is relayed, one message after the other: the decoder's nesting counter is balanced on every path (shared with C11.R4), so no sequence of replies (null arrays included) makes a later well-formed reply fail")
 	c.withAlias(map[string]string{"R4": "R8"}, func() { checkRecursion(c, inputCone(p)) })
 
